@@ -77,6 +77,32 @@ def gen_case(seed):
             sc["script"].append({"t": t, "side": "server", "op": "forge", "ptype": "1rtt", "from_alt": True,
                                  "frames_hex": "1a" + "%016x" % r6.getrandbits(64) + r6.choice(["", "00" * 20])})
         sc["script"].sort(key=lambda o: o["t"])
+    r12 = random.Random("c12-rebind-full/%s" % seed)
+    if r12.random() < 0.06:
+        # directed: the server has a congestion window full of data in flight that nothing acknowledges (its datagrams are
+        # lost for a while) when the client, from a new address (NAT rebinding), sends full-sized ack-eliciting packets:
+        # the new path is not validated, but three times what arrived leaves ample room for an ACK-bearing packet, and ACK
+        # frames do not wait for the congestion window
+        from .. import simnet
+
+        for k in ("resume", "resume_forget", "retry", "frontend_vn"):
+            sc["opts"].pop(k, None)
+        if sc["opts"].get("versions_server") == ["v1"]:
+            sc["opts"].pop("versions_server")
+        d = r12.choice([0.01, 0.02, 0.04])
+        t0 = 1.0
+        fates = {"delay": d, "adv_seconds": t0 + 1.0, "adv_dgrams": 10**6, "loss": 0.0, "blackouts": [[t0 - 0.001, t0 + r12.choice([0.3, 0.6]), "s2c"]]}
+        script = [{"t": t0, "side": "server", "op": "write", "sid": 3, "n": r12.choice([100000, 300000]), "fin": True},
+                  {"t": round(t0 + 2 * d + r12.choice([0.01, 0.05, 0.1]), 4), "side": "client", "op": "write", "sid": 0, "n": r12.choice([1150, 3000, 6000]), "fin": False}]
+        sim0 = simnet.SimNet(sc["opts"], simnet.Fates(seed, dict(fates)), [], [], seed=seed, horizon=t0 - 0.01)
+        try:
+            simnet.run_sim(sim0)
+            fates["rebind_after"] = len(sim0.datagrams["client"])
+        except Exception:
+            pass
+        sc["fates"], sc["script"] = fates, script
+        sc["horizon"] = 60.0
+        sc["mode"] = "rebind-while-window-full"
     r7 = random.Random("c12-ranges/%s" % seed)
     if r7.random() < 0.08:
         # directed: far more than MAX_ACK_RANGES (32) disjoint ranges in one endpoint's ack queue: a long run of small
